@@ -68,7 +68,9 @@ func newWSHandler(host string, dial dialFunc, conn gkm.Gauge) http.Handler {
 			return
 		}
 
-		n, err := out.Read(b)
+		// the status line may arrive in more than one segment: read at least as
+		// many bytes as the prefix test below looks at
+		n, err := io.ReadAtLeast(out, b, len("HTTP/1.1 101"))
 		if err != nil {
 			log.Printf("[ERROR] Error reading handshake for %s: %s", r.URL, err)
 			http.Error(w, "error reading handshake", http.StatusInternalServerError)
